@@ -360,6 +360,14 @@ impl<T: GseDecapMemory, C: CrcCalculator, MHEM: MandatoryHeaderExtensionManager>
 
         let mut header_ext_len: usize = 0;
 
+        // check the gse length before reading any field
+        if gse_len < label_len + PROTOCOL_LEN {
+            self.last_label = None;
+            // len_pkt = buffer_len because the label type or the gse length is wrong so the start of the next packet is undefined
+            // the entire buffer can not be proceed and should be dropped
+            return Err((DecapError::ErrorGseLength, buffer_len));
+        }
+
         // read protocol_type
         let mut protocol_type =
             u16::from_be_bytes(buffer[offset..offset + PROTOCOL_LEN].try_into().unwrap());
@@ -416,13 +424,6 @@ impl<T: GseDecapMemory, C: CrcCalculator, MHEM: MandatoryHeaderExtensionManager>
 
         // check pdu buffer size
         let pdu_buffer_len = pdu_buffer.len();
-        if gse_len < label_len + PROTOCOL_LEN {
-            self.last_label = None;
-            self.memory.provision_storage(pdu_buffer).unwrap();
-            // len_pkt = buffer_len because the label type or the gse length is wrong so the start of the next packet is undefined
-            // the entire buffer can not be proceed and should be dropped
-            return Err((DecapError::ErrorGseLength, buffer_len));
-        }
 
         // check buffer size
         if pdu_buffer_len + label_len + header_ext_len + PROTOCOL_LEN < gse_len {
